@@ -225,8 +225,8 @@ def Ctx.readerResub (c : Ctx) (t : Topic) (a : Actor) (ud0 : PUD) (want : String
         else c
       -- under the group name the change counts as one of an ordinary subscription: muting and un-muting are announced
       let c := if asChan then c
-        else if !isPresencer (eff ud) ∧ isPresencer (oldWant &&& oldGiven) then c.presSingleOfflineOffline a.uid tn "off+dis" "" "" "" ""
-        else if isPresencer (eff ud) ∧ !isPresencer (oldWant &&& oldGiven) then c.presSingleOffline t a.uid (eff ud) "?unkn+en" "" "" "" "" false
+        else if !hearsPres (eff ud) ∧ hearsPres (oldWant &&& oldGiven) then c.presSingleOfflineOffline a.uid tn "off+dis" "" "" "" ""
+        else if hearsPres (eff ud) ∧ !hearsPres (oldWant &&& oldGiven) then c.presSingleOffline t a.uid (eff ud) "?unkn+en" "" "" "" "" false
         else c
       let c := c.presDirect t { what := "acs", src := "", extra := acs, singleUser := a.uid, skipSid := a.sid }
       c.presSingleOffline t a.uid (eff ud) "acs" acs a.uid a.uid a.sid true
